@@ -24,7 +24,8 @@ META = {
         'that built it; (D6) the row loop keeps order, appends exactly on truth, stops at limit, carries '
         'version/metadata/columns; (D7) references are followed only on non-final segments, through the id index; '
         '(D8) the literal sub-grammar agrees with its ZINC sibling (token languages and unescape step).  (D8) text chain: the filter text reaches hs_filter.parseString unchanged through filter_function, _filter_function and parse_filter.  (D7 also) the id index that `->` dereferencing uses is rebuilt/updated on every mutation (clauses shared with C15.D1/D3).  Also (D3): the binary branch template keeps the node or each operand parenthesised; (D5) __repr__ of every literal class shows its fields exactly (no rounding/formatting); (D8) the text chain starts at Grid.filter.  Not decided: '
-        'semantic equivalence of compiled code and filter over all programs x data as an execution; spacing variants.'),
+        'semantic equivalence of compiled code and filter over all programs x data as an execution; spacing variants.'
+        ' Also (D7): the last hop of a path is recognised by position, not by the name of the segment.'),
     'rule_text': 'obligations = grammar-structure facts, fold index coverage, operator-table rows, sentinel methods, '
                  'literal kinds x resolvability, generator branches, loop facts, sibling pairs',
     'trusted_base': ['pyparsing And/MatchFirst/ZeroOrMore token order; Python evaluates `a and b or c` with the usual '
@@ -1042,7 +1043,7 @@ def _row_loop(ctx, m):
     # result construction
     res = None
     for st in body_wo_doc(fn):
-        if isinstance(st, ast.Assign) and isinstance(st.value, ast.Call) and st.lineno < lp.lineno and st in fn.body:
+        if isinstance(st, ast.Assign) and isinstance(st.value, ast.Call) and st._seq < lp._seq and st in fn.body:
             if norm(st.value.func) == 'Grid':
                 res = st
                 res_ctor = st.value
@@ -1170,6 +1171,22 @@ def _get_path(ctx, m):
         ctx.error('C11.D7', '_get_path: segment loop not found')
         return
     lp = loops[0]
+    if norm(lp.iter) == paths and isinstance(lp.target, ast.Name):
+        # no position at hand: is "the last hop" decided by the NAME of the segment?
+        seg = lp.target.id
+        for st in lp.body:
+            if isinstance(st, ast.If) and 'isinstance(%s, Ref)' % obj in norm(st.test):
+                parts = [norm(v) for v in st.test.values] if isinstance(st.test, ast.BoolOp) else [norm(st.test)]
+                by_name = [t for t in parts if t in ('%s != %s[-1]' % (seg, paths), '%s[-1] != %s' % (paths, seg),
+                                                     '%s is not %s[-1]' % (seg, paths), 'not %s == %s[-1]' % (seg, paths))]
+                if by_name:
+                    V('C11.D7', norm(st.test), '`parentRef->parentRef` (or `a->b->a`): the first hop has the same NAME as the last '
+                      'one, so it is taken for the last hop and its reference is not followed -- the path evaluates to NOT_FOUND '
+                      'and the filter selects nothing', 'whether a segment is the last hop is decided by comparing its name with '
+                      'the last name (`%s`), not by its position' % by_name[0], st.lineno)
+                    return
+        ctx.error('C11.D7', '_get_path: loop is not over enumerate(paths)')
+        return
     if norm(lp.iter) != 'enumerate(%s)' % paths or not isinstance(lp.target, ast.Tuple):
         ctx.error('C11.D7', '_get_path: loop is not over enumerate(paths)')
         return
